@@ -13,6 +13,10 @@ CONSTANTS
   MaxSteps = 2
   SizeClasses <- AllSizes
   UnitLens <- UnitLensSmall
+  Setups <- SetupsDef
+  AuthSetups <- AuthSetupsDef
+  Forms <- FormsDef
+  AltForm <- AltFormDef
   Variant = "signpath"
 INVARIANT SigVerifies
 CHECK_DEADLOCK FALSE
